@@ -103,21 +103,25 @@ func main() {
 		return
 	}
 	r := mc.Start("C11")
-	maxLen := mc.Pick(r, 3, 4)
-	maxSeeded := mc.Pick(r, 2, 3)
+	// bounds: (full alphabet, core alphabet) history length per initial state
+	fullLen, coreLen := mc.Pick(r, 2, 3), mc.Pick(r, 3, 4)
+	fullSeeded, coreSeeded := mc.Pick(r, 2, 2), mc.Pick(r, 2, 3)
 	casesPerProgram := mc.Pick(r, 160, 320) // bigger programs amortise the per-program costs (runtime compile, two 64 MiB instances)
-	r.Rule("every history of <= max_len ownership operations over the fixed variable set (21 operations, two initial states), one case function per history with an observation of all reachable data after every operation; each case runs on the real compiled program with instrumented runtime (monitor: live set + mirrored reference counts) without and with 0xA5 poisoning at free, and is compared with Go; distinct = distinct Go outputs")
-	r.Bound("ops", len(progs.OwnOps))
-	r.Bound("max_len_zero_init", maxLen)
-	r.Bound("max_len_seeded_init", maxSeeded)
+	r.Rule("every history of <= full_len ownership operations over the full alphabet (44 operations: the 21 core operations plus identity / no-op / empty-operand variants, string and slice aliases, swaps, field addresses) and every history of <= core_len operations over the core alphabet, from two initial states (all zero; seeded with nodes, a 2-element slice, a map entry and an aliased heap string); one case function per history with an observation of all reachable data after every operation; each case runs on the real compiled program with instrumented runtime (monitor: live set + mirrored reference counts) without and with 0xA5 poisoning at free, and is compared with Go; distinct = distinct Go outputs")
+	r.Bound("ops_full", len(progs.OwnOps))
+	r.Bound("ops_core", progs.OwnCoreOps)
+	r.Bound("zero_init_full_len", fullLen)
+	r.Bound("zero_init_core_len", coreLen)
+	r.Bound("seeded_init_full_len", fullSeeded)
+	r.Bound("seeded_init_core_len", coreSeeded)
 	r.Assume("every operation is guarded so that Go never panics (p.next only when p != nil, reslice only when len > 0, ...): every history is in the domain")
 	r.Assume("boxing a nil pointer into an interface is excluded (i=p stores nil when p == nil): Wa makes the interface itself nil where Go keeps a typed nil - a Go/Wa semantic difference of the C01 kind, not a memory-management event")
 	r.Assume("retain/release of addresses below $__heap_base (static data) are not heap events")
 	r.Assume("reference cycles may leak (reference counting); leaking is not a C11 violation")
 	r.Assume("the allocator itself (C10) is trusted to read/write only block headers: poisoning covers exactly the bytes requested from malloc")
 
-	hs := progs.OwnHistories(maxLen, false)
-	hs = append(hs, progs.OwnHistories(maxSeeded, true)...)
+	hs := progs.OwnSpace(fullLen, coreLen, false)
+	hs = append(hs, progs.OwnSpace(fullSeeded, coreSeeded, true)...)
 	if f := os.Getenv("C11_OPS"); f != "" { // debugging / mutant demonstration: restrict the alphabet
 		hs = progs.OwnRestrict(hs, f)
 		r.Cap("alphabet restricted by C11_OPS=" + f)
@@ -327,6 +331,13 @@ func probe(path string) {
 		f, _ := os.Create(pf)
 		pprof.StartCPUProfile(f)
 		defer pprof.StopCPUProfile()
+	}
+	if wf := os.Getenv("C11_WAT"); wf != "" { // also write the (instrumented) WAT text
+		if wa, err := wrun.Go2Wa(string(src)); err == nil {
+			if _, _, wat, err := rcmon.Build("batch.wa", wa, rcmon.OwnMarks); err == nil {
+				os.WriteFile(wf, wat, 0o644)
+			}
+		}
 	}
 	n := wrun.NumCases(string(src))
 	raw, _ := json.Marshal(rcmon.Job{Src: string(src), N: n, Poison: []bool{false, true}, Record: true})
